@@ -685,9 +685,22 @@ func c09MemSeq(c *core.Ctx, bounds *[]string) {
 	}
 	cmd := exec.Command("bash", "-c", fmt.Sprintf("ulimit -v %d; exec %q C09-child memseq %s", 8<<20, self, tier))
 	cmd.Env = append(os.Environ(), "GOMAXPROCS=2")
-	out, err := cmd.CombinedOutput()
-	text := string(out)
 	cs := core.Case{Kind: "memseq", Data: "all"}
+	// (the child takes minutes in the thorough tier: keep telling the worker's watchdog that this is progress)
+	stop := make(chan struct{})
+	go func() {
+		for i := 0; i < 120; i++ { // at most 20 minutes of patience
+			select {
+			case <-stop:
+				return
+			case <-time.After(10 * time.Second):
+				c.Current(core.Case{Kind: "memseq", Data: fmt.Sprintf("all (child running, %d s)", (i+1)*10)})
+			}
+		}
+	}()
+	out, err := cmd.CombinedOutput()
+	close(stop)
+	text := string(out)
 	if err != nil || !strings.Contains(text, "C09MEMSEQ-END") {
 		c.Report(&core.Viol{Class: "memseq:process-death", Detail: fmt.Sprintf("%v %s", err, c09Tail(text, 1500)), Case: cs})
 		return
